@@ -56,7 +56,7 @@ func runC13(p *Prog, r *Report, tier string) {
 	}
 	calls := callsTo(start, "pkg/intermediate.createWorker")
 	if len(calls) == 0 {
-		r.Infof("Start no longer calls createWorker; worker-job rule skipped")
+		r.Undecided("R-OWNER.worker-job", "anchor: createWorker call in Start", "pkg/intermediate/aggregate.go", "Start no longer calls createWorker: the job run by the workers is unknown")
 	}
 	for _, c := range calls {
 		cc := callOf(c)
